@@ -195,10 +195,11 @@ def main(tier):
         # ---- variables and computed values in the text: a name is shown as value[name], a computed value as value[name=its own text=value];
         #      the variables come from the script, from the host's global table (decoded per load) and from computed bodies that read them
         import json as _json
-        doc = {"力量": {"t": 0, "v": 60}, "敏捷": {"t": 0, "v": 45}, "gcv": {"t": 5, "v": {"expr": "2d6+力量"}}, "gc2": {"t": 5, "v": {"expr": "敏捷*2"}}}
+        doc = {"力量": {"t": 0, "v": 60}, "敏捷": {"t": 0, "v": 45}, "gcv": {"t": 5, "v": {"expr": "2d6+力量"}}, "gc2": {"t": 5, "v": {"expr": "敏捷*2"}},
+               "gnest": {"t": 5, "v": {"expr": "(2d3)d4 + 力量"}}}
         spec = "gjson:" + hx(_json.dumps(doc, ensure_ascii=False))
-        PRE = "lv = 7; &lc = 2d4+lv+力量; "
-        ATOMS = ["力量", "敏捷", "gcv", "gc2", "lv", "lc", "2d6", "3", "1d4", "lc", "gcv"]
+        PRE = "lv = 7; &lc = 2d4+lv+力量; &ln = (2d3)d4 + lv; &lm = (1d2)d(1d3)k1; "
+        ATOMS = ["力量", "敏捷", "gcv", "gc2", "lv", "lc", "2d6", "3", "1d4", "lc", "gcv", "ln", "gnest", "lm", "(2d2)d3"]
         vlines, vmeta = [], []
         for _ in range(300 if tier == "thorough" else 80):
             terms = [r.choice(ATOMS) for _ in range(r.randint(1, 4))]
@@ -260,7 +261,8 @@ def main(tier):
             elif "null" in flat:
                 run.violation("detail:a-value-that-was-read-is-shown-as-null", dict(rep, stripped=flat))
             for n, content in annotations(det):
-                for part in split_top(content, "=")[1:]:
+                # (further comma-separated groups explain the inner rolls of a nested term: `7[(2d3)d4=1+2+3+1,2d3=4]`)
+                for part in split_top(split_top(content, ",")[0], "=")[1:]:
                     fp = strip_ann(part)
                     if re.fullmatch(r"[\d\s()+\-*]+|.*\bnull\b.*", fp) and re.fullmatch(r"[\d\s()+\-*]*(null[\d\s()+\-*]*)*", fp):
                         try:
